@@ -117,7 +117,8 @@ def successors(term):
 
 
 def call_of(term):
-    m = re.match(r'(_\d+) = (.*?) -> ', term)
+    # the callee text may itself contain ' -> ' (fn pointer types): cut at the terminator's own target list
+    m = re.match(r'(_\d+) = (.*) -> (?:\[(?:return|success)|unwind |bb\d+;)', term)
     if m and '(' in m.group(2):
         return m.group(1), m.group(2)
     return None, None
@@ -148,7 +149,8 @@ def derive_map(fn):
         d, callee = call_of(b['term'])
         if d:
             count[d] += 1
-            m3 = re.search(r'as Try>::branch\((?:move|copy) (_\d+)\)', callee or '')
+            m3 = re.search(r'as Try>::branch\((?:move|copy) (_\d+)\)', callee or '') or \
+                re.search(r'^Result::<.*?>::map_err::<.*?>\((?:move|copy) (_\d+),', callee or '')
             if m3:
                 # ControlFlow::Continue (0) <=> Ok (0): same polarity as the Result it was made from
                 der[d] = (m3.group(1), 'same')
@@ -360,6 +362,189 @@ if __name__ == '__main__':
 
 
 # ---------------------------------------------------------------------------------------------
+# eval_impl: error exits are located (C14); nothing is written after a failed write (C19)
+# ---------------------------------------------------------------------------------------------
+EVAL_IMPL = r'^fn vm::<impl at [^>]*>::eval_impl\('
+WRITE_CALLS = r'(output::Output::<[^>]*>::write_str\(|^write_escaped\(|Environment::<[^>]*>::format\(|as std::fmt::Write>::write_fmt\()'
+
+
+def straight_region_calls(fn, preds, bid, limit=12):
+    """callees on the straight-line region that ends in block `bid` (walk back through unique predecessors)"""
+    out = []
+    cur = bid
+    for _ in range(limit):
+        ps = preds.get(cur, [])
+        if len(ps) != 1:
+            break
+        cur = ps[0]
+        _, callee = call_of(fn['blocks'][cur]['term'])
+        if callee:
+            out.append(callee)
+        if fn['blocks'][cur]['term'].startswith('switchInt') and len(out) > 0:
+            # keep walking: the test of the result sits between the call and the exit
+            continue
+    return out
+
+
+def cfg(fn):
+    adj, preds = collections.defaultdict(list), collections.defaultdict(list)
+    for bid, b in fn['blocks'].items():
+        if b['cleanup']:
+            continue
+        for label, tgt in successors(b['term']):
+            if tgt in fn['blocks'] and not fn['blocks'][tgt]['cleanup'] and fn['blocks'][tgt]['term'] != 'unreachable;':
+                adj[bid].append((label, tgt))
+                preds[tgt].append(bid)
+    return adj, preds
+
+
+def check_located(fn):
+    """Every error exit of eval_impl (a block that sets `_0 = Err(..)`) is reached only after process_err attached
+    the location - except exits whose error is a converted fmt::Error (a failed write; the sink's own error is
+    substituted later).  Typing: L = 1 after process_err, L = 0 at the loop head, L = 1 at every non-exempt exit."""
+    adj, preds = cfg(fn)
+    exits, exempt = [], []
+    for bid, b in fn['blocks'].items():
+        if b['cleanup']:
+            continue
+        if any(re.match(r'_0 = Result::<.*>::Err\(', st) for st in b['stmts']):
+            calls = straight_region_calls(fn, preds, bid)
+            if any('From<std::fmt::Error>>::from' in c for c in calls):
+                exempt.append(bid)
+            else:
+                exits.append(bid)
+    s_ = z3.Solver()
+    s_.set('timeout', 30000)
+    D = {b: z3.Int('L_%s' % b) for b in fn['blocks'] if not fn['blocks'][b]['cleanup']}
+    s_.add(D['bb0'] == 0)
+    is_exit = set(exits) | set(exempt)
+    n = 0
+    for bid in adj:
+        if bid in is_exit:
+            continue            # the state AT the exit is what matters; the shared drop/return tail is not followed
+        _, callee = call_of(fn['blocks'][bid]['term'])
+        for label, tgt in adj[bid]:
+            if fn['blocks'][tgt]['term'] == 'return;':
+                continue
+            eff = 1 if (label == 'ok' and callee and re.match(r'process_err\(', callee)) else 0
+            s_.add(D[tgt] == D[bid] + eff)
+            n += 1
+    for e in exits:
+        s_.add(D[e] == 1)
+    t0 = time.time()
+    r = s_.check()
+    dt = time.time() - t0
+    stats = dict(blocks=len(D), edges=n, error_exits=len(exits), exempt_write_exits=len(exempt))
+    if r == z3.sat:
+        return 'sat', None, dt, stats
+    if r != z3.unsat:
+        return str(r), None, dt, stats
+    # explicit: an exit reachable with L == 0
+    seen = {}
+    queue = collections.deque([('bb0', 0, ['bb0'])])
+    while queue:
+        b, d, path = queue.popleft()
+        if (b, d) in seen:
+            continue
+        seen[(b, d)] = path
+        if b in exits and d == 0:
+            calls = [c.split('(')[0][-70:] for c in straight_region_calls(fn, preds, b)]
+            return 'unsat', dict(kind='error exit %s is reached without process_err' % b, calls=calls), dt, stats
+        if b in is_exit:
+            continue
+        _, callee = call_of(fn['blocks'][b]['term'])
+        for label, tgt in adj[b]:
+            if fn['blocks'][tgt]['term'] == 'return;':
+                continue
+            eff = 1 if (label == 'ok' and callee and re.match(r'process_err\(', callee)) else 0
+            queue.append((tgt, min(d + eff, 2), path + [tgt]))
+    return 'unsat', dict(kind='inconsistent location state (process_err inside the loop?)', calls=[]), dt, stats
+
+
+def check_no_write_after_failed_write(fn):
+    """After the failure edge of a write (Output::write_str, write_escaped, Environment::format, write_fmt) no
+    further write is reachable: F = 1 on the Err edge of the switchInt testing the write's result, and every
+    block that calls a write needs F = 0."""
+    adj, preds = cfg(fn)
+    der, defcount = derive_map(fn)
+    writes = {}
+    for bid, b in fn['blocks'].items():
+        if b['cleanup']:
+            continue
+        dst, callee = call_of(b['term'])
+        if dst and re.search(WRITE_CALLS, callee):
+            writes[dst] = bid
+
+    def origin(local):
+        form, seen = 'val', 0
+        while seen < 10:
+            seen += 1
+            if local in writes:
+                return writes[local], form
+            if local not in der or defcount[local] > 1:
+                return None
+            src, k = der[local]
+            if k == 'disc':
+                form = 'disc'
+            local = src
+        return None
+    s_ = z3.Solver()
+    s_.set('timeout', 30000)
+    D = {b: z3.Int('F_%s' % b) for b in fn['blocks'] if not fn['blocks'][b]['cleanup']}
+    s_.add(D['bb0'] == 0)
+    tested = set()
+    edges = []
+    for bid in adj:
+        t = fn['blocks'][bid]['term']
+        if any(re.match(r'_0 = ', st) for st in fn['blocks'][bid]['stmts']):
+            continue            # the function's result is set: what follows is the shared drop/return tail
+        for label, tgt in adj[bid]:
+            if fn['blocks'][tgt]['term'] == 'return;':
+                continue
+            eff = 0
+            if isinstance(label, tuple):
+                m = re.match(r'switchInt\((?:copy|move) (_\d+)\)', t)
+                o = origin(m.group(1))
+                if o is not None and o[1] == 'disc':
+                    tested.add(o[0])
+                    if label[1] == '1':
+                        eff = 1
+            edges.append((bid, tgt, eff))
+            s_.add(D[tgt] == D[bid] + eff)
+    untested = [b for b in writes.values() if b not in tested]
+    for b in writes.values():
+        s_.add(D[b] == 0)
+    t0 = time.time()
+    r = s_.check()
+    dt = time.time() - t0
+    stats = dict(blocks=len(D), edges=len(edges), write_calls=len(writes), failure_edges=sum(1 for _, _, e in edges if e))
+    if untested:
+        return 'unsat', dict(kind='the result of the write in %s is never tested (a failed write would go unnoticed)' % untested[0],
+                             calls=[call_of(fn['blocks'][untested[0]]['term'])[1].split('(')[0][-60:]]), dt, stats
+    if r == z3.sat:
+        return 'sat', None, dt, stats
+    if r != z3.unsat:
+        return str(r), None, dt, stats
+    return 'unsat', dict(kind='a write is reachable after a failed write', calls=[]), dt, stats
+
+
+def analyse_eval_impl(mir):
+    text = function_text(mir, EVAL_IMPL)
+    if text is None:
+        return [dict(function='eval_impl', verdict='missing', detail='eval_impl not found in the MIR dump')]
+    fn = parse_function(text)
+    out = []
+    for name, f in (('located', check_located), ('no_write_after_failure', check_no_write_after_failed_write)):
+        verdict, info, dt, stats = f(fn)
+        r = dict(function='eval_impl', resource=name, spec={}, verdict=verdict, z3_s=round(dt, 3), **stats)
+        if info:
+            r['conflict'] = info['kind']
+            r['calls_a'] = info.get('calls')
+        out.append(r)
+    return out
+
+
+# ---------------------------------------------------------------------------------------------
 # driver
 # ---------------------------------------------------------------------------------------------
 ENV = dict(os.environ, CARGO_NET_OFFLINE='true', CARGO_TARGET_DIR=os.path.join(BUILD, 'native'))
@@ -431,6 +616,8 @@ def run_m(prop, tier, seed):
 
 def replay_m(path):
     d = json.load(open(path))
+    if d.get('kind') == 'eval_impl':
+        return replay_eval_impl(path)
     err = build_restore()
     if err:
         print(err)
@@ -438,5 +625,73 @@ def replay_m(path):
     scen = run_restore()
     names = {s['scenario'] for s in d['scenarios']}
     bad = [s for s in scen if s['scenario'] in names and not s['ok']]
+    print(json.dumps(bad, indent=1))
+    return bool(bad)
+
+
+# ---------------------------------------------------------------------------------------------
+# eval_impl driver (C14: located, C19: no_write_after_failure)
+# ---------------------------------------------------------------------------------------------
+def build_tool(name):
+    p = subprocess.run(['cargo', 'build', '--offline', '--bin', name], cwd=nativelib.native_dir(), env=ENV,
+                       stdout=subprocess.PIPE, stderr=subprocess.STDOUT, text=True)
+    return None if p.returncode == 0 else p.stdout[-2000:]
+
+
+def run_vmexits():
+    p = subprocess.run([os.path.join(BUILD, 'native', 'debug', 'vmexits')], stdout=subprocess.PIPE, stderr=subprocess.PIPE, text=True, timeout=120)
+    return [json.loads(l) for l in p.stdout.split('\n') if l.strip().startswith('{')]
+
+
+def run_eval_impl(prop, tier, seed):
+    which = {'C14': 'located', 'C19': 'no_write_after_failure'}[prop]
+    t0 = time.time()
+    ev = dict(engine='M', violations=[], known_hits=[], problems=[], coverage={})
+    try:
+        mir = dump_mir(REPO, os.path.join(BUILD, 'mir'))
+        results = [r for r in analyse_eval_impl(mir) if r.get('resource') == which or r['verdict'] == 'missing']
+    except MirError as e:
+        ev['problems'].append('engine M: %s' % e)
+        return ev
+    err = build_tool('vmexits')
+    if err:
+        ev['problems'].append('engine M: native scenario tool did not build: ' + err[-300:])
+        return ev
+    scen = [s for s in run_vmexits() if s['check'] == which]
+    failing = [s for s in scen if not s['ok']]
+    for r in results:
+        if r['verdict'] == 'sat':
+            continue
+        if r['verdict'] != 'unsat':
+            ev['problems'].append('engine M: eval_impl/%s: %s %s' % (which, r['verdict'], r.get('detail', '')))
+            continue
+        if failing:
+            rp = os.path.join(nativelib.replay_dir(), '%s-M-eval_impl-%s.json' % (prop, which))
+            json.dump(dict(engine='M', kind='eval_impl', check=which, property=prop, mir_finding=r, scenarios=failing,
+                           how='bin/check %s --replay %s' % (prop, rp)), open(rp, 'w'), indent=1)
+            ev['violations'].append(dict(replay=rp, failed=[dict(
+                desc='eval_impl (%s): %s (near: %s); native scenario %s: %s' % (which, r.get('conflict'), ' < '.join((r.get('calls_a') or [])[:4]),
+                                                                           failing[0]['scenario'], failing[0]['detail'][:200]),
+                loc='minijinja/src/vm/mod.rs eval_impl (MIR)')]))
+        else:
+            ev['problems'].append('engine M: eval_impl/%s: %s, but none of the %d native scenarios misbehaves' % (which, r.get('conflict'), len(scen)))
+    if failing and all(r['verdict'] == 'sat' for r in results):
+        ev['problems'].append('engine M: native scenario %s misbehaves (%s) although the MIR check of eval_impl holds' % (failing[0]['scenario'], failing[0]['detail'][:200]))
+    log('[%s] engine M (eval_impl MIR, %s): %s; %d native scenarios, %d misbehaving' % (
+        prop, which, ', '.join('%s blocks=%s' % (r['verdict'], r.get('blocks')) for r in results), len(scen), len(failing)))
+    ev['coverage'] = dict(queries=len(results), results=results, native_scenarios=len(scen), native_scenarios_failing=len(failing),
+                          function='Executor::eval_impl', check=which)
+    ev['wall_s'] = round(time.time() - t0, 1)
+    return ev
+
+
+def replay_eval_impl(path):
+    d = json.load(open(path))
+    err = build_tool('vmexits')
+    if err:
+        print(err)
+        return False
+    names = {s['scenario'] for s in d['scenarios']}
+    bad = [s for s in run_vmexits() if s['scenario'] in names and not s['ok']]
     print(json.dumps(bad, indent=1))
     return bool(bad)
